@@ -527,3 +527,288 @@ Proof.
   exists f13_field, (PStr (sa "Ab")), (PStr (sa "ab")).
   split; [reflexivity|]. split; [vm_compute; reflexivity|]. vm_compute. discriminate.
 Qed.
+
+(* ============================ soundness / normal form ============================ *)
+(* transforms of the string pipeline are the identity on s *)
+Definition str_stable (o : sopts) (s : str) : Prop :=
+  apply_strip (so_strip o) s = s /\ apply_case (so_case o) s = s /\ (so_case o = CNone \/ case_modelled s = true).
+Definition str_sat (strict : bool) (orc : oracle) (req : bool) (o : sopts) (s : str) : Prop :=
+  str_meets orc req o s /\ (strict = true -> str_stable o s).
+
+Definition p_in_bounds (mn mx : option Z) (p : N) : Prop :=
+  (forall m, mn = Some m -> m <= Z.of_N p) /\ (forall m, mx = Some m -> Z.of_N p <= m).
+
+(* sat false = `meets`: the constraints the field declares (type, bounds, length, pattern, choices, syntax, item/key/value
+   constraints);  sat true = `normal`: meets + every transform of the field is the identity on the value *)
+Fixpoint sat (strict : bool) (orc : oracle) (f : field) (v : pyval) {struct f} : Prop :=
+  (v = PNone /\ field_req f = false) \/
+  match f with
+  | FAny _ => v <> PNone
+  | FStr req o => exists s, v = PStr s /\ str_sat strict orc req o s
+  | FInt _ mn mx => exists z, v = PInt z /\ in_bounds mn mx z
+  | FFloat _ mn mx => exists x, v = PFloat x /\ f_in_bounds mn mx x
+  | FBool _ => exists b, v = PBool b
+  | FIPv4 req o => exists a, v = PStr (print_ipv4 a) /\ (a < 4294967296)%N /\ str_sat strict orc req o (print_ipv4 a)
+  | FNet req o mn mx => exists a p, v = PStr (print_net a p) /\ (a < 4294967296)%N /\ (p <= 32)%N /\
+        (a mod 2 ^ (32 - p) = 0)%N /\ p_in_bounds mn mx p /\
+        str_validate orc req o (PStr (print_net a p)) = Ok (print_net a p)
+  | FHost req o al rs => exists s, v = PStr s /\ str_sat strict orc req o s /\
+        ((exists a, parse_ipv4 s = Some a /\ al = true) \/
+         (rs = false /\ parse_ipv4 s = None /\ all_ascii s = true /\ dns_match s || netbios_match s = true))
+  | FBytes _ _ => exists b, v = PBytes b /\ bytes_ok b = true
+  | FListU req => exists t l, v = PList t l /\ (req = true -> l <> [])
+  | FListT fid req it => exists l, v = PList (fid + 1)%N l /\ Forall (sat strict orc it) l /\ (req = true -> l <> [])
+  | FDictU req => exists t d, v = PDict t d /\ (req = true -> d <> [])
+  | FDictT fid req kf vf => exists d, v = PDict (fid + 1)%N d /\
+        Forall (fun kv => sat strict orc kf (fst kv) /\ sat strict orc vf (snd kv)) d /\ (req = true -> d <> [])
+  | FOpaque _ _ => False
+  end.
+Definition meets := sat false.
+Definition normal := sat true.
+
+Lemma str_validate_sat : forall strict orc req o x v,
+  (strict = true -> sopts_F13 o = false) -> str_validate orc req o x = Ok v -> str_sat strict orc req o v.
+Proof.
+  intros strict orc req o x v HF H. split; [eapply str_validate_sound; exact H|].
+  intro Hs. specialize (HF Hs). destruct (str_validate_str _ _ _ _ _ H) as [s ->].
+  apply str_validate_exact in H as [[Hc Hm] ->]. repeat split.
+  - now apply apply_strip_norm.
+  - apply apply_case_idem.
+  - destruct Hc as [Hc|Hc]; [now left|right]. unfold str_norm. now rewrite case_modelled_apply.
+Qed.
+
+Lemma req_nonnil : forall (A : Type) req (l : list A), req && is_nil l = false -> req = true -> l <> [].
+Proof. intros A req l H ->. cbn in H. now apply is_nil_false. Qed.
+
+(* dict(...) keeps keys and values of the pair list: any property of keys and values separately survives *)
+Lemma dict_build_acc_Forall : forall (PK PV : pyval -> Prop) l acc r,
+  dict_build_acc acc l = Ok r ->
+  Forall (fun kv => PK (fst kv) /\ PV (snd kv)) acc -> Forall (fun kv => PK (fst kv) /\ PV (snd kv)) l ->
+  Forall (fun kv => PK (fst kv) /\ PV (snd kv)) r.
+Proof.
+  intros PK PV. induction l as [|[k v] l IH]; cbn; intros acc r H Ha Hl.
+  - now injection H as <-.
+  - destruct (key_ok k); [|discriminate]. inversion Hl as [|? ? [Hk Hv] Hl']; subst. cbn in Hk, Hv.
+    apply (IH _ _ H); [|exact Hl'].
+    clear -Ha Hk Hv. induction acc as [|[k' v'] acc IHa]; cbn.
+    + constructor; [split; assumption|constructor].
+    + inversion Ha as [|? ? [Hk' Hv'] Ha']; subst. cbn in Hk', Hv'. destruct (key_eqb k k').
+      * constructor; [split; assumption|exact Ha'].
+      * constructor; [split; assumption|now apply IHa].
+Qed.
+
+Lemma plain_dict_Forall : forall d,
+  (fix go (d : list (pyval * pyval)) : bool :=
+     match d with [] => true | (k, v) :: r => plain k && plain v && go r end) d = true ->
+  Forall (fun kv => plain (fst kv) = true /\ plain (snd kv) = true) d.
+Proof.
+  induction d as [|[k v] d IH]; intro H; constructor.
+  - apply andb_true_iff in H as [H _]. apply andb_true_iff in H. exact H.
+  - apply IH. apply andb_true_iff in H as [_ H]. exact H.
+Qed.
+
+Theorem validate_sat : forall strict orc f,
+  (strict = true -> has_F13 f = false) ->
+  forall x v, plain x = true -> validate_with orc f x = Ok v -> sat strict orc f v.
+Proof.
+  intros strict orc f. induction f; intros HF x v Hp H.
+  all: destruct (pyval_none_dec x) as [->|Hx];
+    [rewrite validate_none in H; match type of H with context [field_req ?g] => destruct (field_req g) eqn:R end;
+     [discriminate|injection H as <-; left; split; [reflexivity|exact R]]|].
+  all: right.
+  - rewrite v_any in H by exact Hx. now injection H as <-.
+  - rewrite v_str in H by exact Hx. apply bind_ok in H as [s [E H]]. injection H as <-.
+    exists s. split; [reflexivity|]. eapply str_validate_sat; [exact HF|exact E].
+  - rewrite v_int in H by exact Hx. apply int_validate_exact in H as [z [_ [Hb ->]]]. eauto.
+  - rewrite v_float in H by exact Hx. apply float_validate_ok in H as [g [_ [Hb ->]]]. eauto.
+  - rewrite v_bool in H by exact Hx. apply bool_validate_exact in H as [b [_ ->]]. eauto.
+  - rewrite v_ipv4 in H by exact Hx. unfold ipv4_validate in H. apply bind_ok in H as [s [E H]].
+    destruct (parse_ipv4 s) as [a|] eqn:P; [|discriminate]. injection H as <-. exists a.
+    split; [reflexivity|]. split; [eapply parse_ipv4_bound; exact P|].
+    rewrite (parse_ipv4_canonical _ _ P). eapply str_validate_sat; [exact HF|exact E].
+  - rewrite v_net in H by exact Hx. unfold net_validate in H. apply bind_ok in H as [s [E H]].
+    apply bind_ok in H as [[a p] [P H]].
+    destruct (match minp with Some m => Z.of_N p <? m | None => false end) eqn:C1; [discriminate|].
+    destruct (match maxp with Some m => m <? Z.of_N p | None => false end) eqn:C2; [discriminate|].
+    cbv zeta in H. apply bind_ok in H as [s' [E2 H]].
+    destruct (str_eqb s' (print_net a p)) eqn:Q; [|discriminate]. injection H as <-.
+    apply str_eqb_eq in Q. subst s'. destruct (parse_net_sound _ _ _ P) as (Ba & Bp & Bh).
+    exists a, p. repeat split; auto.
+    + intros m ->. apply Z.ltb_ge in C1. exact C1.
+    + intros m ->. apply Z.ltb_ge in C2. exact C2.
+  - rewrite v_host in H by exact Hx. unfold host_validate in H. apply bind_ok in H as [s [E H]].
+    assert (Hs : str_sat strict orc req o s) by (eapply str_validate_sat; [exact HF|exact E]).
+    destruct (parse_ipv4 s) as [a|] eqn:P.
+    + destruct allow_ipv4; [|discriminate]. injection H as <-. rewrite (parse_ipv4_canonical _ _ P).
+      exists s. split; [reflexivity|]. split; [exact Hs|]. left. eauto.
+    + destruct resolve; [discriminate|]. destruct (all_ascii s) eqn:A; [|discriminate].
+      destruct (dns_match s || netbios_match s) eqn:M; [|discriminate]. injection H as <-.
+      exists s. split; [reflexivity|]. split; [exact Hs|]. right. auto.
+  - rewrite v_bytes in H by exact Hx. destruct x; try discriminate; cbn in H.
+    + destruct (utf8_enc s) eqn:U; [|discriminate]. injection H as <-. exists b. split; [reflexivity|].
+      eapply utf8_enc_bytes_ok; exact U.
+    + injection H as <-. exists b. split; [reflexivity|exact Hp].
+  - destruct x as [| | | | | |tg l|l|tg d| |]; cbn in H; try discriminate; try congruence.
+    + destruct (req && is_nil l) eqn:R; [discriminate|]. injection H as <-. exists tg, l. split; [reflexivity|].
+      now apply req_nonnil.
+    + destruct (req && is_nil l) eqn:R; [discriminate|]. injection H as <-. exists 0%N, l. split; [reflexivity|].
+      now apply req_nonnil.
+  - (* FListT *)
+    assert (G : forall l, forallb plain l = true ->
+              (if req && is_nil l then Err EValue
+               else if (0 =? fid + 1)%N then Ok (PList (fid + 1)%N l)
+               else if negb (0 =? 0)%N then Unmodelled
+               else do l' <- map_res (validate_with orc f) l ;; Ok (PList (fid + 1)%N l')) = Ok v ->
+              exists l', v = PList (fid + 1)%N l' /\ Forall (sat strict orc f) l' /\ (req = true -> l' <> [])).
+    { intros l Hl G. destruct (req && is_nil l) eqn:R; [discriminate|].
+      assert (Hne : (0 =? fid + 1)%N = false) by (apply N.eqb_neq; lia). rewrite Hne in G. cbn [negb N.eqb] in G.
+      apply bind_ok in G as [l' [M G]]. injection G as <-. exists l'. split; [reflexivity|]. split.
+      - apply map_res_Forall2 in M. rewrite forallb_forall in Hl. clear R H.
+        induction M as [|a b l l' Hab M IHM]; constructor.
+        + apply (IHf HF a b); [apply Hl; now left|exact Hab].
+        + apply IHM. intros y Hy. apply Hl. now right.
+      - intro Hr. pose proof (req_nonnil _ _ _ R Hr) as Hn. intro Hl'. apply Hn. apply length_zero_iff_nil.
+        rewrite <- (map_res_length _ _ _ _ _ M), Hl'. reflexivity. }
+    destruct x as [| | | | | |tg l|l|tg d| |]; cbn [validate_with] in H; try discriminate; try congruence.
+    + cbn in Hp. apply andb_true_iff in Hp as [Ht Hl]. apply N.eqb_eq in Ht. subst tg. exact (G l Hl H).
+    + exact (G l Hp H).
+  - destruct x as [| | | | | |tg l|l|tg d| |]; cbn in H; try discriminate; try congruence.
+    destruct (req && is_nil d) eqn:R; [discriminate|]. injection H as <-. exists tg, d. split; [reflexivity|].
+    now apply req_nonnil.
+  - (* FDictT *)
+    destruct x as [| | | | | |tg l|l|tg d| |]; cbn [validate_with] in H; try discriminate; try congruence.
+    cbn [plain] in Hp. apply andb_true_iff in Hp as [Ht Hd]. apply N.eqb_eq in Ht. subst tg.
+    destruct (req && is_nil d) eqn:R; [discriminate|].
+    assert (Hne : (0 =? fid + 1)%N = false) by (apply N.eqb_neq; lia). rewrite Hne in H. cbn [negb N.eqb] in H.
+    apply bind_ok in H as [d' [M H]]. apply bind_ok in H as [d'' [B H]]. injection H as <-.
+    cbn [has_F13] in HF.
+    assert (HF1 : strict = true -> has_F13 f1 = false) by (intro S; specialize (HF S); now apply orb_false_iff in HF).
+    assert (HF2 : strict = true -> has_F13 f2 = false) by (intro S; specialize (HF S); now apply orb_false_iff in HF).
+    exists d''. split; [reflexivity|]. split.
+    + apply (dict_build_acc_Forall (sat strict orc f1) (sat strict orc f2) d' [] d'' B); [constructor|].
+      apply map_res_Forall2 in M. apply plain_dict_Forall in Hd. clear R B.
+      induction M as [|[k x] [k' x'] d d' Hab M IHM]; constructor.
+      * inversion Hd as [|? ? [Pk Px] Hd']; subst. cbn in Pk, Px, Hab.
+        apply bind_ok in Hab as [k2 [Ek Hab]]. apply bind_ok in Hab as [x2 [Ex Hab]]. injection Hab as <- <-.
+        cbn. split; [exact (IHf1 HF1 k k2 Pk Ek)|exact (IHf2 HF2 x x2 Px Ex)].
+      * inversion Hd; subst. now apply IHM.
+    + intro Hr. pose proof (req_nonnil _ _ _ R Hr) as Hn. apply (dict_build_nonnil _ _ B). intro Hd'. apply Hn.
+      apply length_zero_iff_nil. rewrite <- (map_res_length _ _ _ _ _ M), Hd'. reflexivity.
+  - destruct x; [congruence|discriminate..].
+Qed.
+
+Corollary validate_sound : forall orc f x v, plain x = true -> validate_with orc f x = Ok v -> meets orc f v.
+Proof. intros orc f x v. apply validate_sat. discriminate. Qed.
+Corollary validate_normal : forall orc f x v,
+  has_F13 f = false -> plain x = true -> validate_with orc f x = Ok v -> normal orc f v.
+Proof. intros orc f x v HF. apply validate_sat. intros _. exact HF. Qed.
+
+(* ============================ fixed points ============================ *)
+Lemma req_check : forall (A : Type) req (l : list A), (req = true -> l <> []) -> req && is_nil l = false.
+Proof. intros A [] l H; [cbn; apply is_nil_false; auto|reflexivity]. Qed.
+
+Lemma str_sat_fixpoint : forall orc req o s, str_sat true orc req o s -> str_validate orc req o (PStr s) = Ok s.
+Proof. intros orc req o s [Hm Hs]. destruct (Hs eq_refl) as (A & B & C). now apply str_validate_fixpoint. Qed.
+
+Theorem validate_fixpoint : forall orc f v, normal orc f v -> validate_with orc f v = Ok v.
+Proof.
+  intros orc f v H. unfold normal in H.
+  assert (HN : v = PNone /\ field_req f = false -> validate_with orc f v = Ok v).
+  { intros [-> R]. now rewrite validate_none, R. }
+  destruct f; cbn [sat] in H; (destruct H as [H|H]; [exact (HN H)|]); clear HN.
+  - now apply v_any.
+  - destruct H as [s [-> Hs]]. rewrite v_str by discriminate. now rewrite (str_sat_fixpoint _ _ _ _ Hs).
+  - destruct H as [z [-> Hb]]. rewrite v_int by discriminate. now apply int_validate_fixpoint.
+  - destruct H as [x [-> Hb]]. rewrite v_float by discriminate. now apply float_validate_fixpoint.
+  - destruct H as [b ->]. reflexivity.
+  - destruct H as [a [-> [Ba Hs]]]. rewrite v_ipv4 by discriminate. unfold ipv4_validate.
+    rewrite (str_sat_fixpoint _ _ _ _ Hs). cbn [bind]. now rewrite (ipv4_roundtrip a Ba).
+  - destruct H as [a [p [-> (Ba & Bp & Bh & [B1 B2] & E)]]]. rewrite v_net by discriminate. unfold net_validate.
+    rewrite E. cbn [bind]. rewrite (net_roundtrip a p Ba Bp Bh). cbn [bind].
+    assert (C1 : match minp with Some m => Z.of_N p <? m | None => false end = false).
+    { destruct minp as [m|]; [|reflexivity]. apply Z.ltb_ge. now apply B1. }
+    assert (C2 : match maxp with Some m => m <? Z.of_N p | None => false end = false).
+    { destruct maxp as [m|]; [|reflexivity]. apply Z.ltb_ge. now apply B2. }
+    rewrite C1, C2. cbv zeta. rewrite E. cbn [bind]. now rewrite str_eqb_refl.
+  - destruct H as [s [-> [Hs Hc]]]. rewrite v_host by discriminate. unfold host_validate.
+    rewrite (str_sat_fixpoint _ _ _ _ Hs). cbn [bind]. destruct Hc as [[a [P ->]]|(-> & P & A & M)].
+    + now rewrite P, (parse_ipv4_canonical _ _ P).
+    + now rewrite P, A, M.
+  - destruct H as [b [-> _]]. reflexivity.
+  - destruct H as [t [l [-> Hr]]]. cbn. now rewrite (req_check _ _ _ Hr).
+  - destruct H as [l [-> [_ Hr]]]. cbn. now rewrite (req_check _ _ _ Hr), N.eqb_refl.
+  - destruct H as [t [d [-> Hr]]]. cbn. now rewrite (req_check _ _ _ Hr).
+  - destruct H as [d [-> [_ Hr]]]. cbn. now rewrite (req_check _ _ _ Hr), N.eqb_refl.
+  - contradiction.
+Qed.
+
+Example normal_sat : normal no_oracle (FListT 0 true (FInt false (Some 0) (Some 10))) (PList 1%N [PInt 3; PNone]).
+Proof.
+  unfold normal. cbn [sat]. right. exists [PInt 3; PNone]. split; [reflexivity|]. split; [|discriminate].
+  constructor; [|constructor; [|constructor]].
+  - right. exists 3. split; [reflexivity|]. split; intros m E; injection E as <-; lia.
+  - left. split; reflexivity.
+Qed.
+
+(* ============================ the on-disk round trip ============================ *)
+(* domain of the round-trip theorem: values as the fields store them; an unset (None) TYPED container comes back
+   empty (property C02 allows exactly that), so typed-container positions hold a container; untyped containers are
+   builtin lists/dicts; typed dict fields are not covered by this theorem (see basic_roundtrip_partial) *)
+Fixpoint rt_dom (f : field) (v : pyval) {struct f} : Prop :=
+  match f with
+  | FListU _ => v = PNone \/ exists l, v = PList 0%N l
+  | FDictU _ => v = PNone \/ exists d, v = PDict 0%N d
+  | FListT _ _ it => exists t l, v = PList t l /\ Forall (rt_dom it) l
+  | FDictT _ _ _ _ | FOpaque _ _ => False
+  | _ => True
+  end.
+
+Lemma roundtrip_items : forall (tb tp va : pyval -> res pyval) l,
+  Forall (fun i => exists b p, tb i = Ok b /\ tp b = Ok p /\ va p = Ok i) l ->
+  exists lb lp, map_res tb l = Ok lb /\ map_res tp lb = Ok lp /\ map_res va lp = Ok l.
+Proof.
+  intros tb tp va l H. induction H as [|i l [b [p (A & B & C)]] H [lb [lp (IA & IB & IC)]]].
+  - exists [], []. repeat split.
+  - exists (b :: lb), (p :: lp). cbn. rewrite A, IA, B, IB, C, IC. repeat split.
+Qed.
+
+Theorem basic_roundtrip_partial : forall orc f v,
+  normal orc f v -> rt_dom f v ->
+  exists b p, to_basic f v = Ok b /\ to_python_with orc f b = Ok p /\ validate_with orc f p = Ok v.
+Proof.
+  intros orc f. induction f; intros v Hn Hd; pose proof (validate_fixpoint _ _ _ Hn) as Hfix.
+  1-8: exists v, v; repeat split; exact Hfix.
+  - (* FBytes *) unfold normal in Hn. cbn [sat] in Hn. destruct Hn as [[-> R]|[b [-> Hb]]].
+    + exists PNone, PNone. repeat split. exact Hfix.
+    + exists (PStr (match enc with B64 => b64_enc b | BHex => hex_enc b end)), (PBytes b).
+      split; [reflexivity|]. split; [|exact Hfix]. cbn. destruct enc.
+      * now rewrite (b64_decode_py_enc b Hb).
+      * now rewrite (hex_dec_enc b Hb).
+  - (* FListU *) cbn in Hd. destruct Hd as [->|[l ->]].
+    + exists PNone, PNone. repeat split. exact Hfix.
+    + exists (PList 0%N l), (PList 0%N l). repeat split. exact Hfix.
+  - (* FListT *) cbn [rt_dom] in Hd. destruct Hd as [t [l [-> Hd]]].
+    unfold normal in Hn. cbn [sat] in Hn. destruct Hn as [[Hv _]|[l0 [Hv [Hi Hr]]]]; [discriminate Hv|].
+    injection Hv as -> <-.
+    assert (Hall : Forall (fun i => exists b p, to_basic f i = Ok b /\ to_python_with orc f b = Ok p /\
+                                     validate_with orc f p = Ok i) l).
+    { clear Hr Hfix. induction l as [|i l IHl]; constructor.
+      - inversion Hi; inversion Hd; subst. now apply IHf.
+      - inversion Hi; inversion Hd; subst. now apply IHl. }
+    destruct (roundtrip_items _ _ _ l Hall) as [lb [lp (A & B & C)]].
+    exists (PList 0%N lb), (PList (fid + 1)%N l). cbn [to_basic to_python_with]. rewrite A. cbn [bind].
+    split; [reflexivity|]. rewrite B. cbn [bind]. rewrite C. cbn [bind]. split; [reflexivity|exact Hfix].
+  - (* FDictU *) cbn in Hd. destruct Hd as [->|[d ->]].
+    + exists PNone, PNone. repeat split. exact Hfix.
+    + exists (PDict 0%N d), (PDict 0%N d). repeat split. exact Hfix.
+  - contradiction.
+  - contradiction.
+Qed.
+
+(* the normalisation property C02 allows: an unset typed list / dict comes back empty *)
+Lemma unset_typed_container_roundtrip : forall orc fid req it kf vf,
+  to_basic (FListT fid req it) PNone = Ok PNone /\
+  to_python_with orc (FListT fid req it) PNone = Ok (PList (fid + 1)%N []) /\
+  to_basic (FDictT fid req kf vf) PNone = Ok PNone /\
+  to_python_with orc (FDictT fid req kf vf) PNone = Ok (PDict (fid + 1)%N []).
+Proof. intros. repeat split. Qed.
